@@ -139,12 +139,22 @@ def r4(R):
     rets = [r for r in ast.walk(fn) if isinstance(r, ast.Return)]
     R.shape(len(rets) == 1, "C02.R4", TR, "uncompute_g_vectors", "the single return")
     names = [n.id for n in ast.walk(rets[0].value) if isinstance(n, ast.Name)]
+    def masked(v):
+        return isinstance(v, ast.BinOp) and isinstance(v.op, ast.Mult) and vname in (src(v.left), src(v.right))
     for nme in names:
         defs = [a for a in ast.walk(fn) if isinstance(a, ast.Assign) and any(src(t) == nme for t in a.targets)]
         last = defs[-1] if defs else None
-        ok = last is not None and isinstance(last.value, ast.BinOp) and isinstance(last.value.op, ast.Mult) and vname in (src(last.value.left), src(last.value.right))
-        R.check(ok, "C02.R4", TR, last.lineno if last else fn.lineno, "uncompute_g_vectors", "returned %s = ... * %s" % (nme, vname),
-                "an angle is returned without being multiplied by the validity mask: unreachable g-vectors are given angles")
+        # the values that end up in the returned object: the last assignment, or what is appended to a list built in a loop
+        produced = []
+        if last is not None and not (isinstance(last.value, ast.List) and not last.value.elts):
+            produced.append((last.value, last.lineno))
+        for c in ast.walk(fn):
+            if isinstance(c, ast.Call) and isinstance(c.func, ast.Attribute) and c.func.attr == "append" and src(c.func.value) == nme and c.args:
+                produced.append((c.args[0], c.lineno))
+        R.shape(bool(produced), "C02.R4", TR, "uncompute_g_vectors", "how the returned name '%s' is computed" % nme)
+        for v, ln in produced:
+            R.check(masked(v), "C02.R4", TR, ln, "uncompute_g_vectors", "returned %s = ... * %s" % (nme, vname),
+                    "an angle is returned without being multiplied by the validity mask: unreachable g-vectors are given angles")
     n = 0
     for rel in pyfacts.library_files(R.root, R.tier):
         mm = pyfacts.module(R, rel)
@@ -189,15 +199,17 @@ def r5(R):
         R.shape(len(mdef) == 1, "C02.R5", GVG, "g_to_k", "the single definition of the mask %s" % mask.id)
         comps = [x for x in ast.walk(mdef[0].value) if isinstance(x, ast.Compare)]
         lower = upper = False
+        gated = src(gate[0].value.args[1]) if len(gate[0].value.args) >= 2 else arg.id     # the quantity np.where lets through
+        names_ok = (arg.id, gated)
         for x in comps:
             l, op, r = src(x.left), x.ops[0], src(x.comparators[0])
-            if l == arg.id and isinstance(op, (ast.GtE, ast.Gt)) and r in ("-1", "-1.0"):
+            if l in names_ok and isinstance(op, (ast.GtE, ast.Gt)) and r in ("-1", "-1.0"):
                 lower = True
-            if l == arg.id and isinstance(op, (ast.LtE, ast.Lt)) and r in ("1", "1.0"):
+            if l in names_ok and isinstance(op, (ast.LtE, ast.Lt)) and r in ("1", "1.0"):
                 upper = True
-            if r == arg.id and isinstance(op, (ast.LtE, ast.Lt)) and l in ("-1", "-1.0"):
+            if r in names_ok and isinstance(op, (ast.LtE, ast.Lt)) and l in ("-1", "-1.0"):
                 lower = True
-            if r == arg.id and isinstance(op, (ast.GtE, ast.Gt)) and l in ("1", "1.0"):
+            if r in names_ok and isinstance(op, (ast.GtE, ast.Gt)) and l in ("1", "1.0"):
                 upper = True
         R.check(lower and upper, "C02.R5", GVG, mdef[0].lineno, "g_to_k", "mask %s = %s" % (mask.id, src(mdef[0].value)),
                 "the validity mask bounds the required sine only on one side: g-vectors that can never reach the Ewald sphere on the "
